@@ -170,6 +170,13 @@ Theorem C14_crash_converges_refuted : ~ C14_crash_converges_full.
 Proof. exact crash_converges_refuted. Qed.
 Print Assumptions C14_crash_converges_refuted.
 
+(* ... but it only LOSES entries: after EVERY history (no hypothesis on the schedule at all) every answer of the index
+   is an answer of the uninterrupted index, hence (C14_index_answers_are_real) the real position of a real transaction *)
+Theorem C14_any_history_only_real_answers : forall c, wf_chain c = true -> NoDup (chain_hashes c) ->
+  forall earliest l h r, get_by_hash (life c earliest l) h = Some r -> get_by_hash (run c) h = Some r.
+Proof. exact any_history_answers_are_real. Qed.
+Print Assumptions C14_any_history_only_real_answers.
+
 (* the boolean checks evaluated on every harness chain give the hypotheses used above *)
 Theorem C14_chain_hyps_sound : forall c, chain_hyps c = true ->
   wf_chain c = true /\ cum_chain_ok c = true /\ NoDup (chain_hashes c).
